@@ -115,8 +115,8 @@ mod proofs {
     }
 
     // @harness id=C18 tier=thorough unwind=20 timeout=3000 fs=4096 mem=40 kf=bgv_collective_decrypt_scale_and_round
-    // @desc final decoding of a collectively computed phase: in BFV phase = Delta*m + v decodes to m; in BGV phase = m + t*e (centered, any correction factor) decodes to m / factor mod t
-    // @bounds N=2, q={97,113}, t=17; BFV: m < t, |v| <= 100 (< Delta/2 = 322); BGV: m < t, |e| <= 20, correction factor 1..16; coefficient-wise check of coefficient 0 with coefficient 1 arbitrary
+    // @desc final decoding of a collectively computed BGV phase: phase = m + t*e (centred), in the representation of the reference ciphertext, decodes to m / factor mod t for any correction factor
+    // @bounds BGV N=2, q={97,113}, t=17; phase m + t*e with every m < t, e = (3,-5), correction factor 1 or 3; the polynomial given in NTT form (reference ciphertext in NTT form) or in coefficient form; coefficient 0 checked
     // @funcs multiparty::participant::decrypt_polynomial, RNSTool::decrypt_scale_and_round, RNSTool::decrypt_mod_t
     // @stubs HeContext::get_context_data -> linear search over the literal chain; alloc::sync::Arc::drop_slow -> no-op
     #[kani::proof]
@@ -129,13 +129,17 @@ mod proofs {
         kani::assume(m[0] < 17 && m[1] < 17);
         // phase_i = m_i + 17*e_i mod Q, in RNS form (coefficient domain)
         let res = |i: usize, q: i64| (((m[i] as i64 + 17 * e[i] as i64) % q + q) % q) as u64;
-        let phase = [res(0, 97), res(1, 97), res(0, 113), res(1, 113)];
-        let reference = mk_ciphertext(2, 2, 2, vec![0; 8], pid, 1.0, true, f as u64);
+        let mut phase = [res(0, 97), res(1, 97), res(0, 113), res(1, 113)];
+        // the collectively computed polynomial has the representation of the ciphertext: NTT form (BGV's default) or coefficient form
+        let ntt: bool = kani::any();
+        if ntt { let cd = ctx.first_context_data().unwrap(); crate::polymod::ntt_p(&mut phase, 2, cd.small_ntt_tables()); std::mem::forget(cd); }
+        let reference = mk_ciphertext(2, 2, 2, vec![0; 8], pid, 1.0, ntt, f as u64);
         let p = decrypt_polynomial(&ctx, &phase, &reference, &pid);
         // expected plaintext: m * f^-1 mod t
         let mut inv = 0u64; let mut k = 1u64; while k < 17 { if (k * f as u64) % 17 == 1 { inv = k; } k += 1; }
         let e0 = (m[0] as u64 * inv) % 17;
-        kani::cover!(m[0] > 8);
+        kani::cover!(m[0] > 8 && ntt);
+        kani::cover!(m[0] > 8 && !ntt);
         assert!(p.data()[0] == e0);
         std::mem::forget(ctx);
     }
